@@ -11,7 +11,7 @@ jobs = int(sys.argv[sys.argv.index("--jobs") + 1]) if "--jobs" in sys.argv else 
 claimed = json.load(open("/verif/tools/claimed.json"))
 if "--only" in sys.argv:
     claimed = sys.argv[sys.argv.index("--only") + 1].split(",")
-tag = os.path.basename(os.path.normpath(d)).replace("/", "_") or "x"
+tag = os.path.normpath(d).strip("/").replace("/", "_")
 WT = "/tmp/benwt-" + tag
 subprocess.run("git -C /repo worktree remove --force %s 2>/dev/null; git -C /repo worktree add -q --detach %s HEAD" % (WT, WT), shell=True, check=True)
 
